@@ -175,6 +175,7 @@ def judge(ctx, rname, data, enum=False, as_view=False):
     want = ref(data)
     arg = memoryview(data) if as_view else data
     case = {"reader": rname, "data": data.hex(), "view": as_view}
+    ctx.case_sample(case)
     try:
         val, rest = lib(arg)
         got = ("ok", _norm(val), None if rest is None else bytes(rest))
